@@ -98,6 +98,7 @@ type X struct {
 	lastModel map[string]uint64
 	cutSeen   map[string]int
 	Params    map[string]int
+	cutOld    map[string]Value
 }
 
 func (x *X) unsupported(msg string) {
